@@ -45,12 +45,6 @@ Proof.
   rewrite map_nth. rewrite seq_nth by exact H. reflexivity.
 Qed.
 
-Lemma lhs_nonneg : forall m ts, nonneg_terms ts = true -> 0 <= lhs m ts.
-Proof.
-  intros m ts H. apply nonneg_terms_Forall in H. induction H as [|t ts Ht _ IH]; simpl; [lia|].
-  unfold term_val. destruct (lit_val m (snd t)); lia.
-Qed.
-
 Lemma unit_terms_app : forall a b, unit_terms (a ++ b) = unit_terms a ++ unit_terms b.
 Proof. intros. unfold unit_terms. apply map_app. Qed.
 
@@ -100,7 +94,7 @@ Lemma relax_optimal :
         StronglySorted (fun a b => oweight b < oweight a) s /\ last s OUnsat = r
     end.
 Proof.
-  destruct (optimal_run_nonneg solve solve_ok n P co Hnn Hwf) as [r [s [E H]]].
+  destruct (optimal_run_correct solve solve_ok n P co Hwf) as [r [s [E H]]].
   exists r, s. split; [exact E|]. destruct r as [|m w].
   - destruct H as [Hu Hs]. split; [|exact Hs]. intros u.
     destruct (hardok u) eqn:Eu; [|reflexivity]. exfalso. apply Hu.
